@@ -768,6 +768,8 @@ def run(facts, prop=None):
     check_limit_adapter(res, facts, BUFMUT, "buf::limit::Limit", "Limit", "remaining_mut", "chunk_mut", "advance_mut")
     n = check_chain(res, facts, BUF, "remaining", "has_remaining", ("advance", "copy_to_bytes"))
     n += check_chain(res, facts, BUFMUT, "remaining_mut", "has_remaining_mut", ("advance_mut",))
+    check_chain_has(res, facts, BUF, "remaining", "has_remaining")
+    check_chain_has(res, facts, BUFMUT, "remaining_mut", "has_remaining_mut")
     chain_conservation(res, facts, BUF, "remaining", ("advance", "copy_to_bytes"))
     chain_conservation(res, facts, BUFMUT, "remaining_mut", ("advance_mut",))
     res.floor("chain_b_calls", n, 4)
@@ -775,6 +777,8 @@ def run(facts, prop=None):
     if has_std:
         check_rw(res, facts)
         check_take_vectored(res, facts)
+        check_take_vectored_budget(res, facts)
+    check_has_overrides(res, facts)
     check_constructors(res, facts, has_std)
     return res
 
@@ -862,3 +866,210 @@ def check_take_vectored(res, facts):
         res.bad(key, b.loc(), "; ".join(probs))
     else:
         res.ok(key, b.loc(), "inner.chunks_vectored(&mut scratch[..min(dst.len(), N)]); dst filled for the listed slices only", nontrivial=True)
+
+
+def check_take_vectored_budget(res, facts):
+    """Take::chunks_vectored lists at most `limit` bytes: the cut applied to a listed slice is `limit - (bytes of the slices listed whole
+    before it)`, carried from one iteration to the next (rules/budget.py: closed forms of loop-carried locals)."""
+    from .budget import Loop, S, fmt, lf_add
+    from .flow import defs_of
+    b = method_body(facts, BUF, "buf::take::Take", "chunks_vectored")
+    key = "Take::chunks_vectored|budget carried"
+    if b is None:
+        return
+    b_orig = b
+    cuts = []
+    for b in [b_orig] + list(views(facts, b_orig)):
+        # (the trimming loop may sit in a helper `trim_to_limit(dst, slices, self.limit)`: then it is read in the view with helpers spliced in)
+        cfg = cfg_of(b)
+        defs = defs_of(b)
+        cuts = find_cuts(b, cfg, defs)
+        if cuts:
+            break
+    if not cuts:
+        res.bad(key, b_orig.loc(), "no cut `slice[..budget]` of a listed slice found in a loop: nothing bounds the listing by the limit")
+        return
+    return judge_cuts(res, facts, key, b, b_orig, cuts, defs)
+
+
+def find_cuts(b, cfg, defs):
+    cuts = []
+    for bi, t in b.calls():
+        fn = callee(t)
+        if fn is None or b.blocks[bi]["cleanup"] or not cfg.reaches(bi, bi):
+            continue
+        if fn["name"] in ("get", "index", "get_unchecked", "split_at", "split_at_checked", "get_mut", "index_mut") and len(t["args"]) == 2:
+            r = t["args"][1]
+            end = None
+            if fn["name"].startswith("split_at"):
+                end = r
+            elif r["k"] in ("copy", "move") and not r["pl"]["p"]:
+                rd = defs.get(r["pl"]["l"], [])
+                if len(rd) == 1 and rd[0][2] == "assign" and rd[0][3]["k"] == "agg" and str(rd[0][3].get("adt", "")).endswith("RangeTo"):
+                    end = rd[0][3]["ops"][0]
+            if end is not None:
+                cuts.append((bi, t["args"][0], end))
+    return cuts
+
+
+def judge_cuts(res, facts, key, b, b_orig, cuts, defs):
+    from .budget import Loop, S, fmt, lf_add
+    probs, oks = [], []
+    for bi, recv, end in cuts:
+        lp = Loop(b, facts, bi)
+        elem = lp.chase(recv)
+        f = lp.operand(end)
+        if f is not None and len(f) == 1 and list(f.values()) == [1] and isinstance(list(f)[0], tuple) and list(f)[0][0] == "MIN":
+            # `..min(budget, slice.len())`: the budget is the operand that is not this slice's length
+            d = defs[list(f)[0][1]][0][3]
+            fs = [lp.operand(a) for a in d["args"]]
+            rest = [x for x in fs if x != {("LEN", elem): 1}]
+            f = rest[0] if len(rest) == 1 else None
+        if f is None or elem is None:
+            probs.append("the end of the cut at bb%d is not a sum / difference of amounts this rule can follow" % bi)
+            continue
+        g, notes = lp.resolve(dict(f), elem)
+        if g is None:
+            probs.append("the cut `..%s` has no closed form: %s" % (fmt(f), notes))
+            continue
+        want = {("FIELD", "limit"): 1, S: -1}
+        if g != want:
+            probs.append("the cut `..%s` evaluates to %s, not to self.limit - S (S = bytes of the slices listed whole so far)%s" % (fmt(f), fmt(g), "; " + "; ".join(notes) if notes else ""))
+        else:
+            oks.append("cut at bb%d: ..%s == self.limit - S (%s)" % (bi, fmt(f), "; ".join(notes)))
+    if probs:
+        res.bad(key, b_orig.loc(), "; ".join(probs) + ": the listing can hold more than `limit` bytes")
+    else:
+        res.ok(key, b_orig.loc(), "; ".join(oks) + (" (helpers inlined)" if b is not b_orig else ""), nontrivial=True)
+
+
+def check_chain_has(res, facts, trait, rem_m, has_m):
+    """Chain::has_remaining / has_remaining_mut, when overridden, is `remaining() != 0`: true only where one half is known to have
+    something left, false only where both are known to have nothing - decided per path.  (`chunk_mut` / `advance_mut` of an outer
+    Chain pick the half by a.has_remaining_mut(): an answer that looks at one half only sends writes to the wrong half.)"""
+    from .flow import enumerate_paths, PathExprBuilder, path_relations
+    head = "buf::chain::Chain"
+    im = [i for i in facts.impls if i.get("trait") == trait and i["self_ty"].startswith(head)]
+    if len(im) != 1:
+        return
+    it = [x for x in im[0]["items"] if x["name"] == has_m]
+    if not it:
+        return
+    b = facts.by_did.get(it[0].get("did"))
+    if b is None:
+        return
+    key = "Chain(%s)::%s|agrees with %s() != 0" % (trait.rsplit("::", 1)[-1], has_m, rem_m)
+
+    def yes_no(rels, fld):
+        is_has, is_rem = ucall_on(has_m, fld), ucall_on(rem_m, fld)
+        z = ("const", 0)
+        yes = no = False
+        for r in rels:
+            if r[0] == "truth" and is_has(strip_refs(canon(r[1]))):
+                yes, no = yes or r[2] == 1, no or r[2] == 0
+            if len(r) > 2 and isinstance(r[1], tuple) and isinstance(r[2], tuple):
+                x, y = strip_refs(canon(r[1])), strip_refs(canon(r[2]))
+                if (r[0] in ("ne",) and ((is_rem(x) and y == z) or (is_rem(y) and x == z))) or (r[0] == "lt" and x == z and is_rem(y)):
+                    yes = True
+                if (r[0] == "eq" and ((is_rem(x) and y == z) or (is_rem(y) and x == z))) or (r[0] == "le" and is_rem(x) and y == z):
+                    no = True
+        return yes, no
+
+    def nonzero_of(e, fld):
+        is_has, is_rem = ucall_on(has_m, fld), ucall_on(rem_m, fld)
+        e = strip_refs(canon(e))
+        if is_has(e):
+            return True
+        return isinstance(e, tuple) and e and e[0] == "bin" and ((e[1] in ("Ne", "Gt") and is_rem(strip_refs(canon(e[2]))) and canon(e[3]) == ("const", 0)) or
+                                                               (e[1] in ("Ne", "Lt") and canon(e[2]) == ("const", 0) and is_rem(strip_refs(canon(e[3])))))
+
+    def whole(e):
+        # `self.remaining() != 0` / `a.remaining().saturating_add(b.remaining()) > 0`
+        e = strip_refs(canon(e))
+        if not (isinstance(e, tuple) and e and e[0] == "bin" and e[1] in ("Ne", "Gt", "Lt")):
+            return False
+        for x, y in ((e[2], e[3]), (e[3], e[2])):
+            if canon(y) != ("const", 0):
+                continue
+            x = canon(x)
+            if isinstance(x, tuple) and x[0] in ("call", "ucall") and str(x[1]).rsplit("::", 1)[-1] == rem_m and strip_refs(canon(x[2][0])) in (("param", 1), ("deref", ("param", 1))):
+                return True
+            sa = saturating_sum_operands(x, facts)
+            if sa is not None and ((ucall_on(rem_m, "a")(sa[0]) and ucall_on(rem_m, "b")(sa[1])) or (ucall_on(rem_m, "a")(sa[1]) and ucall_on(rem_m, "b")(sa[0]))):
+                return True
+        return False
+    prob = None
+    n = 0
+    for path in enumerate_paths(b, limit=200):
+        n += 1
+        pe = PathExprBuilder(b, facts, path, inline=False)
+        v = canon(pe.local(0, (path[-1], len(b.blocks[path[-1]]["stmts"]))))
+        rels = [r for r in path_relations(b, facts, path) if r]
+        a_yes, a_no = yes_no(rels, "a")
+        b_yes, b_no = yes_no(rels, "b")
+        if isinstance(v, tuple) and v and v[0] == "const":
+            if v[1] in (1, True) and not (a_yes or b_yes):
+                prob = "answers true on a path where neither half is known to have anything left"
+            elif v[1] in (0, False) and not (a_no and b_no):
+                prob = "answers false on a path where the two halves are not both known to be exhausted"
+        elif whole(v):
+            pass
+        elif nonzero_of(v, "b") and a_no:
+            pass
+        elif nonzero_of(v, "a") and b_no:
+            pass
+        else:
+            sv = strip_refs(v)
+            # `a.has() | b.has()` computed without a branch
+            if isinstance(sv, tuple) and sv and sv[0] == "bin" and sv[1] == "BitOr" and ((nonzero_of(sv[2], "a") and nonzero_of(sv[3], "b")) or (nonzero_of(sv[2], "b") and nonzero_of(sv[3], "a"))):
+                pass
+            else:
+                prob = "on the path bb%s the answer is %s, which looks at one half only (the other half is not known to be exhausted there)" % ("->bb".join(str(x) for x in path), fmt_expr(v)[:80])
+        if prob:
+            break
+    if prob:
+        res.bad(key, b.loc(), prob + ": it disagrees with %s() != 0" % rem_m)
+    else:
+        res.ok(key, b.loc(), "%d path(s): true only with a half known non-empty, false only with both halves known empty" % n, nontrivial=True)
+
+
+def check_has_overrides(res, facts):
+    """every other `has_remaining` / `has_remaining_mut` override in the crate says `remaining() != 0` of the same impl: a comparison of
+    the impl's own remaining expression with 0, `!x.is_empty()` where remaining is `x.len()`, or the same forward to the same receiver."""
+    z = ("const", 0)
+    n = 0
+    for trait, rem_m, has_m in ((BUF, "remaining", "has_remaining"), (BUFMUT, "remaining_mut", "has_remaining_mut")):
+        for im in facts.impls:
+            if im.get("trait") != trait or im["self_ty"].startswith(("buf::chain::Chain", "buf::take::Take", "buf::limit::Limit")):
+                continue
+            items = {x["name"]: facts.by_did.get(x.get("did")) for x in im["items"]}
+            hb, rb = items.get(has_m), items.get(rem_m)
+            if hb is None:
+                continue
+            n += 1
+            key = "%s for %s::%s|agrees with %s() != 0" % (trait.rsplit("::", 1)[-1], im["self_ty"], has_m, rem_m)
+            hv = strip_refs(canon(return_expr(hb, facts, inline=False)))
+            rv = strip_refs(canon(return_expr(rb, facts, inline=False))) if rb is not None else None
+
+            def is_rem(e):
+                e = strip_refs(canon(e))
+                if rv is not None and e == rv:
+                    return True
+                return isinstance(e, tuple) and e and e[0] in ("call", "ucall") and str(e[1]).rsplit("::", 1)[-1] == rem_m and e[2] and \
+                    strip_refs(canon(e[2][0])) in (("param", 1), ("deref", ("param", 1)))
+            ok = False
+            if isinstance(hv, tuple) and hv and hv[0] == "bin":
+                ok = (hv[1] in ("Ne", "Gt") and is_rem(hv[2]) and canon(hv[3]) == z) or (hv[1] in ("Ne", "Lt") and canon(hv[2]) == z and is_rem(hv[3]))
+            if not ok and isinstance(hv, tuple) and hv and hv[0] in ("call", "ucall") and str(hv[1]).rsplit("::", 1)[-1] == has_m and \
+                    isinstance(rv, tuple) and rv and rv[0] in ("call", "ucall") and str(rv[1]).rsplit("::", 1)[-1] == rem_m:
+                ok = strip_refs(canon(hv[2][0])) == strip_refs(canon(rv[2][0]))
+            if not ok and isinstance(hv, tuple) and hv and hv[0] == "un" and hv[1] == "Not":
+                x = strip_refs(canon(hv[2]))
+                if isinstance(x, tuple) and x and x[0] in ("call", "ucall") and str(x[1]).rsplit("::", 1)[-1] == "is_empty" and \
+                        isinstance(rv, tuple) and rv and rv[0] in ("call", "ucall") and str(rv[1]).rsplit("::", 1)[-1] == "len":
+                    ok = strip_refs(canon(x[2][0])) == strip_refs(canon(rv[2][0]))
+            if ok:
+                res.ok(key, hb.loc(), "%s" % fmt_expr(hv)[:80], nontrivial=True)
+            else:
+                res.bad(key, hb.loc(), "the answer %s is not `%s() != 0` of this impl (%s = %s)" % (fmt_expr(hv)[:80], rem_m, rem_m, fmt_expr(rv)[:60] if rv is not None else "provided"))
+    res.floor("has_remaining overrides outside the adapters", n, 2)
